@@ -1,5 +1,7 @@
 //! C16 — manual reference counting of parsed arenas under clone / move / drop histories.
-//! case: `c16 <mode> <op>;<op>;...`   mode: s = single thread, t = clones and drops run on other threads
+//! case: `c16 <mode> <op>;<op>;...`   mode: s = single thread, t = clones and drops run on other threads,
+//!                                    q = single thread, and S/V/E drive a `StreamDeserializer` (`into_stream::<Value>()`) instead of
+//!                                        repeated `Deserializer::deserialize`
 //!   P:<hexdoc>        parse into a new slot              C:i  clone slot i into a new slot
 //!   D:i               drop slot i                        T:i  take slot i into a new slot
 //!   H:i:k:<hexkey>    clone a member of slot i (array index k / object key) into a new slot
@@ -49,7 +51,14 @@ struct DeState {
     de: sonic_rs::Deserializer<sonic_rs::Read<'static>>,
 }
 
+type Stream = sonic_rs::StreamDeserializer<'static, Value, sonic_rs::Read<'static>>;
+
 pub fn run_history(threaded: bool, prog: &str) -> String {
+    run_history_mode(threaded, false, prog)
+}
+
+pub fn run_history_mode(threaded: bool, streamed: bool, prog: &str) -> String {
+    let mut st: Option<Stream> = None;
     let base_arena = sonic_rs::verif::arenas_created();
     let _ = freed_log();
     let live0 = LIVE.load(Ordering::SeqCst);
@@ -231,7 +240,25 @@ pub fn run_history(threaded: bool, prog: &str) -> String {
             "S" => {
                 // the stream buffer lives as long as the process (allocated outside the count)
                 let buf: &'static [u8] = Box::leak(unhex(p[1]).into_boxed_slice());
-                de = Some(tracked(|| DeState { de: sonic_rs::Deserializer::from_slice(buf) }));
+                if streamed {
+                    st = Some(tracked(|| sonic_rs::Deserializer::from_slice(buf).into_stream::<Value>()));
+                } else {
+                    de = Some(tracked(|| DeState { de: sonic_rs::Deserializer::from_slice(buf) }));
+                }
+            }
+            "V" if streamed => match st.as_mut() {
+                Some(it) => match tracked(|| it.next().map(|r| r.map_err(drop))) {
+                    Some(Ok(v)) => {
+                        slots.push(v);
+                        refs.push(serde_json::from_slice(&unhex(p[1])).unwrap());
+                    }
+                    _ => ok = false,
+                },
+                None => ok = false,
+            },
+            "E" if streamed => {
+                let d = st.take();
+                tracked(|| drop(d));
             }
             "V" => match de.as_mut() {
                 Some(d) => match tracked(|| Value::deserialize(&mut d.de).map_err(drop)) {
@@ -286,6 +313,7 @@ pub fn run_history(threaded: bool, prog: &str) -> String {
     }
     tracked(|| {
         drop(de.take());
+        drop(st.take());
         slots.clear();
     });
     let late: Vec<usize> = freed_log();
@@ -403,7 +431,8 @@ pub fn run() {
         } else {
             let prog = p.get(2).copied().unwrap_or("").to_string();
             let threaded = mode == "t";
-            out.line(&guarded(move || run_history(threaded, &prog)));
+            let streamed = mode == "q";
+            out.line(&guarded(move || run_history_mode(threaded, streamed, &prog)));
         }
     }
 }
@@ -647,6 +676,10 @@ pub fn gen(seed: u64, thorough: bool) {
     for k in 0..n {
         let len = 5 + r.below(if k % 10 == 0 { 120 } else { 30 });
         let hist = gen_history(&mut r, len, k % 3 != 0);
+        // histories without a failing stream value are also run through a StreamDeserializer (which stops at the first error)
+        if hist.contains("S:") && !hist.contains("F:") {
+            out.line(&format!("c16 q {hist}"));
+        }
         let mode = if k % 4 == 3 { "t" } else { "s" };
         out.line(&format!("c16 {mode} {hist}"));
     }
